@@ -152,7 +152,9 @@ namespace options
 
                     while (std::getline(str, element, ';'))
                     {
-                        update_value(element);
+                        // the elements are taken verbatim, they must not be parsed like arguments
+                        dirty_ = true;
+                        value_.push_back(element);
                     }
 
                     return;
